@@ -21,7 +21,7 @@ EFFECTS = {
     "json.dump": ("fs-write(file-arg)",), "pickle.loads": ("unpickle",), "pickle.load": ("unpickle",),
     "stdlib_list.in_stdlib": ("fs-read(package-data)",), "struct.pack": (), "marshal.dumps": (), "re.match": (),
     "pickletools.genops": ("read(arg)", "seek(arg)"), "io.BytesIO": (),
-    "importlib.import_module": ("import",), "super": (), "noop": (), "os.system": ("spawn",), "subprocess.run": ("spawn",), "subprocess.Popen": ("spawn",),
+    "importlib.import_module": ("import",), "super": (), "noop": (), "sorted": (), "os.system": ("spawn",), "subprocess.run": ("spawn",), "subprocess.Popen": ("spawn",),
 }
 
 
@@ -93,6 +93,9 @@ class ModelMixin:
             return [(st, vint(len(v.xs)))]
         if v.k == "snap" and v.cls == "dict":
             return [(st, vint(z3.Length(v.xs["dict.keys"])))]
+        if v.k == "val" and v.cls is None:
+            t = v.t
+            return [(st, vint(z3.If(Val.is_Y(t), z3.Length(Val.y(t)), z3.If(Val.is_S(t), z3.Length(Val.s(t)), z3.Length(st.items(Val.r(t)))))))]
         return [(st, vint(z3.Length(self.as_seq(v, st))))]
 
     def class_names(self, v):
@@ -250,6 +253,11 @@ class ModelMixin:
         return [(st, V("str", self.to_str(v, st)))]
 
     def bi_repr(self, args, kw, st, node):
+        if not hasattr(self, "_REPR"):
+            self._REPR = z3.Function("REPR", Val, Str)
+        v = args[0]
+        if v.k in ("str", "bytes", "int", "bool", "float", "none") or (v.k == "val" and v.cls is None):
+            return [(st, V("str", self._REPR(box(v))))]       # repr of immutable data is a function of the value
         return [(st, V("str", fresh("repr", Str)))]
 
     def bi_bool(self, args, kw, st, node):
@@ -334,13 +342,24 @@ class ModelMixin:
             self._PARSEV = z3.Function("PARSE_INT", Val, Int)
         return z3.If(Val.is_I(t), Val.i(t), z3.If(Val.is_B(t), z3.If(Val.b(t), 1, 0), self._PARSEV(t)))
 
+    def int_parses(self, t):
+        """does int(x) succeed for a str / bytes / float value: a *function* of the value (two calls on the same text agree)"""
+        if not hasattr(self, "_PARSES"):
+            self._PARSES = z3.Function("INT_PARSES", Val, Bool)
+        return self._PARSES(t)
+
+    def float_is_inf(self, t):
+        if not hasattr(self, "_ISINF"):
+            self._ISINF = z3.Function("FLOAT_IS_INF", Val, Bool)
+        return self._ISINF(t)
+
     def bi_int(self, args, kw, st, node):
         v = args[0]
         if v.k in ("int", "bool"):
             return [(st, vint(self.as_int(v)))]
         if v.k in ("str", "bytes"):
             # decimal parse or ValueError; the parse function is uninterpreted except on canonical non-negative numerals
-            ok = fresh("int_parses", Bool)
+            ok = self.int_parses(box(v))
             out = []
             for s, b in self.branch(st, ok, "int() parses"):
                 if b:
@@ -352,7 +371,7 @@ class ModelMixin:
                     out.append((self.raise_exc(s, "ValueError"), None))
             return out
         if v.k == "float":
-            return [(st, vint(fresh("trunc", Int)))]
+            return self.bi_int([V("val", box(v))], kw, st, node)
         if v.k == "none":
             return [(self.raise_exc(st, "TypeError"), None)]
         if v.k == "val":
@@ -366,12 +385,16 @@ class ModelMixin:
                         if b2:
                             out.append((self.raise_exc(s2, "TypeError"), None))
                         else:
-                            ok = fresh("int_parses", Bool)
-                            for s3, b3 in self.branch(s2, ok, "int() parses"):
-                                if b3:
-                                    out.append((s3, vint(self.int_of_val(t))))
-                                else:
-                                    out.append((self.raise_exc(s3, "ValueError"), None))
+                            # str / bytes: decimal parse; float: truncation (inf -> OverflowError, nan -> ValueError)
+                            for s4, inf in self.branch(s2, z3.And(Val.is_F(t), self.float_is_inf(t)), "int() of an infinite float"):
+                                if inf:
+                                    out.append((self.raise_exc(s4, "OverflowError"), None))
+                                    continue
+                                for s3, b3 in self.branch(s4, self.int_parses(t), "int() parses"):
+                                    if b3:
+                                        out.append((s3, vint(self.int_of_val(t))))
+                                    else:
+                                        out.append((self.raise_exc(s3, "ValueError"), None))
             return out
         raise Unsupported(f"{self.where(node)}: int() of {v!r}")
 
@@ -406,6 +429,18 @@ class ModelMixin:
                 raise Unsupported("any/all over objects with __bool__")
             ts.append(t)
         return [(st, vbool(z3.simplify(z3.Or(ts) if any_mode else z3.And(ts)) if ts else z3.BoolVal(not any_mode)))]
+
+    def bi_sorted(self, args, kw, st, node):
+        v = args[0]
+        if v.k == "iter" and v.xs[0] == "static" and v.note == "presorted":
+            return [(st, V("iter", xs=("static", list(v.xs[1])), cls="list"))]
+        raise Unsupported(f"{self.where(node)}: sorted() of {v!r}")
+
+    def m_str_upper(self, recv, args, kw, st, node):
+        s_ = z3.simplify(recv.t)
+        if z3.is_string_value(s_):
+            return [(st, vstr(s_.as_string().upper()))]
+        return [(st, V("str", fresh("upper", Str)))]
 
     def bi_next(self, args, kw, st, node):
         v = args[0]
@@ -626,12 +661,66 @@ class ModelMixin:
             return z3.StringVal(s.as_string().strip())
         return self._STRIP(t)
 
+    # ---- text codecs: uninterpreted functions per codec; the laws assumed of them are ground rule instances (contracts/encoders.py) ----
+    CODECS = {"utf-8": "UTF8", "utf8": "UTF8", "latin-1": "LATIN1", "latin1": "LATIN1", "ascii": "ASCII", "raw-unicode-escape": "RUE",
+              "raw_unicode_escape": "RUE"}
+
+    def codec_name(self, args, kw, node):
+        a = args[0] if args else kw.get("encoding")
+        if a is None:
+            return "UTF8"
+        t = z3.simplify(a.t) if a.k == "str" else None
+        if t is None or not z3.is_string_value(t) or t.as_string().lower() not in self.CODECS:
+            raise Unsupported(f"{self.where(node)}: codec {a!r} has no model")
+        return self.CODECS[t.as_string().lower()]
+
+    def codec_fn(self, name, direction):
+        key = f"_{name}_{direction}"
+        if not hasattr(self, key):
+            if direction == "enc":
+                f = z3.Function(name, Str, Bytes)
+            elif direction == "dec":
+                f = z3.Function(name + "_DECODE", Bytes, Str)
+            elif direction == "encodable":
+                f = z3.Function(name + "_ENCODABLE", Str, Bool)
+            else:
+                f = z3.Function(name + "_VALID", Bytes, Bool)
+            setattr(self, key, f)
+        return getattr(self, key)
+
     def m_str_encode(self, recv, args, kw, st, node):
-        return [(st, V("bytes", self.utf8(recv.t)))]
+        name = self.codec_name(args, kw, node)
+        s_ = z3.simplify(recv.t)
+        if z3.is_string_value(s_):
+            try:
+                from .sorts import bytes_lit
+                py = {"UTF8": "utf-8", "LATIN1": "latin-1", "ASCII": "ascii", "RUE": "raw-unicode-escape"}[name]
+                return [(st, V("bytes", bytes_lit(s_.as_string().encode(py))))]
+            except UnicodeError:
+                return [(self.raise_exc(st, "UnicodeEncodeError"), None)]
+            except Exception:  # noqa
+                pass
+        if name == "RUE":        # raw-unicode-escape encodes every str
+            return [(st, V("bytes", self.codec_fn(name, "enc")(recv.t)))]
+        out = []
+        for s, ok in self.branch(st, self.codec_fn(name, "encodable")(recv.t), f"str.encode({name}) succeeds"):
+            if ok:
+                out.append((s, V("bytes", self.codec_fn(name, "enc")(recv.t))))
+            else:
+                out.append((self.raise_exc(s, "UnicodeEncodeError"), None))
+        return out
+
+    def m_bytes_decode(self, recv, args, kw, st, node):
+        name = self.codec_name(args, kw, node)
+        out = []
+        for s, ok in self.branch(st, self.codec_fn(name, "valid")(recv.t), f"bytes.decode({name}) succeeds"):
+            if ok:
+                out.append((s, V("str", self.codec_fn(name, "dec")(recv.t))))
+            else:
+                out.append((self.raise_exc(s, "UnicodeDecodeError"), None))
+        return out
 
     def utf8(self, t):
-        if not hasattr(self, "_UTF8"):
-            self._UTF8 = z3.Function("UTF8", Str, Bytes)
         s = z3.simplify(t)
         if z3.is_string_value(s):
             try:
@@ -639,7 +728,18 @@ class ModelMixin:
                 return bytes_lit(s.as_string().encode("utf-8"))
             except Exception:  # noqa
                 pass
-        return self._UTF8(t)
+        return self.codec_fn("UTF8", "enc")(t)
+
+    def m_str_replace(self, recv, args, kw, st, node):
+        """str.replace(old, new) replaces every occurrence: an uninterpreted function of the three texts (folded on literals)"""
+        if len(args) != 2:
+            raise Unsupported(f"{self.where(node)}: str.replace with a count")
+        ts = [z3.simplify(x) for x in (recv.t, args[0].t, args[1].t)]
+        if all(z3.is_string_value(x) for x in ts):
+            return [(st, V("str", z3.StringVal(ts[0].as_string().replace(ts[1].as_string(), ts[2].as_string()))))]
+        if not hasattr(self, "_REPLACE_ALL"):
+            self._REPLACE_ALL = z3.Function("REPLACE_ALL", Str, Str, Str, Str)
+        return [(st, V("str", self._REPLACE_ALL(recv.t, args[0].t, args[1].t)))]
 
     def m_str_join(self, recv, args, kw, st, node):
         return [(st, V("str", fresh("joined", Str)))]
